@@ -32,11 +32,48 @@ Definition sdk_feasible (r : tree) : option bool :=
   | _ => None
   end.
 
-Fixpoint replay (I : instance) (s : state) (ops : list rop) (obs : list tree) (feas0 : option bool)
+(* Instance::evaluate_samples on the states (sample ids 0, 1, ..): both flags of every sample must be those of the
+   model's evaluation of that state alone on the CURRENT lists (so they obey the same invariance) *)
+Fixpoint flag_of (m : list tree) (k : N) : option bool :=
+  match m with
+  | [] => None
+  | L [kt; bt] :: m' => match d_N kt with
+                        | Some j => if (j =? k)%N then d_bool bt else flag_of m' k
+                        | None => None end
+  | _ :: _ => None
+  end.
+Fixpoint judge_flags (I : instance) (states : list state) (k : N) (fe fr : list tree) : option tree :=
+  match states with
+  | [] => None
+  | st :: states' =>
+      match inst_eval I st with
+      | None => judge_flags I states' (k + 1)%N fe fr        (* out-of-bound state: evaluate alone rejects it *)
+      | Some sol =>
+          match flag_of fe k, flag_of fr k with
+          | Some bfe, Some bfr =>
+              if negb (Bool.eqb bfe (so_feasible sol))
+              then Some (disagree "evaluate_samples: feasible flag of a sample differs from evaluating its state alone (all constraints, relaxed ones included)" (L [e_N k; e_bool (so_feasible sol)]))
+              else if negb (Bool.eqb bfr (so_feasible_relaxed sol))
+              then Some (disagree "evaluate_samples: feasible_relaxed flag of a sample differs from evaluating its state alone" (L [e_N k; e_bool (so_feasible_relaxed sol)]))
+              else judge_flags I states' (k + 1)%N fe fr
+          | _, _ => Some (disagree "evaluate_samples: a submitted sample id has no feasibility flag" (e_N k))
+          end
+      end
+  end.
+Definition judge_sample_flags (I : instance) (states : list state) (sf : tree) : option tree :=
+  match ok_payload sf with
+  | Some (L [L fe; L fr]) => judge_flags I states 0%N fe fr
+  | _ => if existsb (fun st => match inst_eval I st with Some _ => true | None => false end) states
+         then (if is_err sf || is_panic sf then Some (disagree "evaluate_samples must succeed on in-bound covering states" (A "ok"))
+               else Some (badresult "sample flags shape"))
+         else None
+  end.
+
+Fixpoint replay (I : instance) (s : state) (states : list state) (ops : list rop) (obs : list tree) (feas0 : option bool)
          (n : nat) : tree :=
   match ops, obs with
   | [], [] => agree ["history"; if Nat.leb 4 n then "len>=4" else "len<4"]
-  | o :: ops', L [res; it; ev] :: obs' =>
+  | o :: ops', L (res :: it :: ev :: more) :: obs' =>
       let '(I', okb) := step I o in
       match d_instance it with
       | None => badresult "relax_history: instance shape"
@@ -50,9 +87,17 @@ Fixpoint replay (I : instance) (s : state) (ops : list rop) (obs : list tree) (f
             | L (A "agree" :: _) =>
                 match feas0, sdk_feasible ev with
                 | Some b0, Some b1 =>
-                    if Bool.eqb b0 b1 then replay I' s ops' obs' feas0 (S n)
+                    if Bool.eqb b0 b1 then
+                      match (match more with [sf] => judge_sample_flags Isdk states sf | _ => None end) with
+                      | Some v => v
+                      | None => replay I' s states ops' obs' feas0 (S n)
+                      end
                     else disagree "overall feasibility must be invariant under relax/restore" (e_bool b0)
-                | _, _ => replay I' s ops' obs' feas0 (S n)
+                | _, _ =>
+                    match (match more with [sf] => judge_sample_flags Isdk states sf | _ => None end) with
+                    | Some v => v
+                    | None => replay I' s states ops' obs' feas0 (S n)
+                    end
                 end
             | v => v
             end
@@ -62,18 +107,24 @@ Fixpoint replay (I : instance) (s : state) (ops : list rop) (obs : list tree) (f
 
 Definition run_C14 (case : tree) : tree :=
   match case with
-  | L [A "relax_history"; L [i; ops; s]; r] =>
-      match d_instance i, d_list d_rop ops, d_state s with
-      | Some I', Some ops', Some s' =>
+  | L [A "relax_history"; L (i :: ops :: s :: extra); r] =>
+      match d_instance i, d_list d_rop ops, d_state s,
+            (match extra with [e] => d_list d_state e | [] => Some [] | _ => None end) with
+      | Some I', Some ops', Some s', Some ex =>
+          let states := s' :: ex in
           match ok_payload r with
-          | Some (L (L [A "start"; _; ev0] :: obs)) =>
+          | Some (L (L (A "start" :: _ :: ev0 :: more0) :: obs)) =>
               match judge_inst_eval I' s' ev0 with
-              | L (A "agree" :: _) => replay I' s' ops' obs (sdk_feasible ev0) 0
+              | L (A "agree" :: _) =>
+                  match (match more0 with [sf] => judge_sample_flags I' states sf | _ => None end) with
+                  | Some v => v
+                  | None => replay I' s' states ops' obs (sdk_feasible ev0) 0
+                  end
               | v => v
               end
           | _ => badresult "relax_history: shape"
           end
-      | _, _, _ => badcase "relax_history: input"
+      | _, _, _, _ => badcase "relax_history: input"
       end
   | _ => badcase "C14: unknown op"
   end.
